@@ -288,7 +288,8 @@ public:
 
         m_data.erase(theFirst, theLast);
 
-        m_size = m_data.size() - 1;
+        // (the buffer of an empty string may not have been allocated)
+        m_size = m_data.empty() == true ? 0 : m_data.size() - 1;
 
         invariants();
 
